@@ -40,6 +40,10 @@ def check(ck: Checker) -> None:
     classes = [c for c in mod.classes.values()] + [prog.cls("hashfile.db.local", "LocalHashFileDB"), prog.cls("hashfile.db", "HashFileDB")]
     n = check_class_level_state(ck, "C10.memo", classes, "a later checkout in the same process skips work the earlier one recorded (e.g. parent directories believed to exist), so files are not restored")
     ck.floor("C10.memo", n, 3, "classes examined for shared mutable state")
+    from .shared_state import check_process_wide_memo
+
+    n2 = check_process_wide_memo(ck, "C10.memo", ["hashfile.checkout", "hashfile.diff", "hashfile.utils"], "a later checkout in the same process trusts what an earlier one established (a directory was created, an object was verified) although the workspace / cache changed in between")
+    ck.floor("C10.memo", n2, 10, "module-level functions examined for process-wide memoisation")
     from . import round4 as _r4
 
     _r4.failures_always_raised(ck, "C10.state")
